@@ -329,6 +329,13 @@ class Gen:
             self.declare(x, "any")
             handler = self.block(2)
             self.pop()
+            if self.rng.random() < 0.35:
+                # catch patterns (literals only: the text of an internal error is unspecified, it just never
+                # equals a number): the first handler whose literal equals the thrown value runs, a
+                # handler that does not match passes the ORIGINAL value on
+                k0, k1, k2 = (self.rng.randint(1, 3) for _ in range(3))
+                inner = g.tryp(g.seq([body, g.throw(L(k0))]), g.lv_lit(k1), g.call(I("print"), [L("h1")]))
+                return [g.try_(g.tryp(inner, g.lv_lit(k2), g.call(I("print"), [L("h2")])), x, handler)]
             return [g.try_(body, x, handler)]
         if r < 0.925:
             return [self.switch_stmt()]
